@@ -46,7 +46,7 @@ theorem run_spec (k : Cfg) (P : NState → Prop) (Q : NDone → Prop)
   induction n with
   | zero =>
     intro st hm hp
-    rw [run]
+    rw [run_eq]
     split
     · rename_i r h; exact hdone _ _ hp h
     · rename_i st' h
@@ -54,7 +54,7 @@ theorem run_spec (k : Cfg) (P : NState → Prop) (Q : NDone → Prop)
       omega
   | succ n ih =>
     intro st hm hp
-    rw [run]
+    rw [run_eq]
     split
     · rename_i r h; exact hdone _ _ hp h
     · rename_i st' h
@@ -2967,43 +2967,25 @@ theorem nexus_result_dims (sy : Syms) (text : List Char) (s : RS) (h : readNexus
 
 /-! ### bounded work -/
 
-/-- the number of machine steps `run` takes from a state (a ghost counter over the driver's own `step`) -/
-def runSteps (k : Cfg) (st : NState) : Nat :=
-  match h : step k st with
-  | .done _ => 1
-  | .next st' => 1 + runSteps k st'
-termination_by st.measure
-decreasing_by exact step_decreases k st st' h
+/-- **A real, linear step budget for the Newick statement machine.**  `run` — what `parseStatement`, hence `readNewick` and
+the TREE statements of `readNexus`, execute — is the fuelled loop `runF`: one unit per machine step, started with
+`newickFuel st = 3·|unread input| + 3` units (every token costs at least one character, so this is linear in the number
+of tokens too).  The budget is never used up: from every state `runF` returns a result, and that result is what `run`
+returns (the `outOfFuel` fallback of `run` is not taken), whatever the nesting of the statement. -/
+theorem newick_fuel_suffices (k : Cfg) (st : NState) :
+    runF k (newickFuel st) st = some (run k st) ∧ newickFuel st = 3 * st.rest.length + 3 := by
+  refine ⟨?_, rfl⟩
+  have h := (runF_stable k st.measure st (newickFuel st) (newickFuel st) (Nat.le_refl _) (measure_lt_fuel st) (measure_lt_fuel st)).2
+  unfold run
+  cases hr : runF k (newickFuel st) st with
+  | none => exact absurd hr h
+  | some r => rfl
 
-/-- **Linear number of machine steps, Newick.**  `runSteps` is a ghost counter defined in this file next to `run`
-(same recursion over the driver's `step`; the driver itself does not count).  From any state the machine takes at most
-`3·|unread input| + 3` steps, whatever the nesting — a restatement of the termination measure (`step_decreases`) as a
-bound.  It counts machine steps, not the character work of the tokenizer inside a step. -/
-theorem newick_steps_linear (k : Cfg) (st : NState) : runSteps k st ≤ 3 * st.rest.length + 3 := by
-  have key : ∀ (n : Nat) (st : NState), st.measure ≤ n → runSteps k st ≤ st.measure + 1 := by
-    intro n
-    induction n with
-    | zero =>
-      intro st hm
-      rw [runSteps]
-      split
-      · omega
-      · rename_i st' h
-        have := step_decreases k st st' h
-        omega
-    | succ n ih =>
-      intro st hm
-      rw [runSteps]
-      split
-      · omega
-      · rename_i st' h
-        have hd := step_decreases k st st' h
-        have := ih st' (by omega)
-        omega
-  have h1 := key st.measure st (Nat.le_refl _)
-  have h2 := rank_le st
-  unfold NState.measure at h1
-  omega
+/-- the budget is a real one: with nothing to spend the loop stops at once … -/
+example (k : Cfg) (st : NState) : runF k 0 st = none := rfl
+/-- … and one unit is enough for a state whose step finishes the statement -/
+example (k : Cfg) (st : NState) (r : NDone) (h : step k st = .done r) : runF k 1 st = some r := by
+  simp only [runF, h]
 
 /-- **Only two outcomes on any text, in particular on any truncation.**  (The name is historical; what is stated is
 the dichotomy, not that a cut yields an error — for that see `statement_needs_semicolon` / `taxa_block_needs_end`;
@@ -3231,6 +3213,75 @@ theorem too_many_taxa_needs_ntax (i : Nat) (s : RS) (h : parseTaxlabels i s = .e
 
 /-- the hypotheses are satisfiable: a fresh reader state has no NTAX; one with `NTAX=1` has -/
 example : ({ rest := "1 A, 2 B;".toList, fuel := 9 } : RS).ntax = none ∧ ({ rest := [], ntax := some 1 } : RS).ntax.isSome = true := ⟨rfl, rfl⟩
+
+end DendroModel.C20
+
+namespace DendroModel.C20.Aux
+open DendroModel DendroModel.C20
+
+/-! ### the row a MATRIX line fills exists before and after it is read -/
+theorem requireTok_rows (s : RS) : OkImp (requireTok s) (fun p => p.2.rows = s.rows) := by
+  unfold requireTok
+  split
+  · exact OkImp.perr _
+  · exact OkImp.perr _
+  · exact OkImp.ok rfl
+
+theorem readStates_rows (symOk : Char → Bool) (r : Nat) (s : RS) :
+    OkImp (readStates symOk r s) (fun s' => r < s.rows.length ∧ s'.rows.length = s.rows.length) := by
+  unfold readStates
+  refine OkImp.ite (fun _ => fun a ha => by cases ha) (fun hr => ?_)
+  have hr' : r < s.rows.length := by omega
+  try dsimp only
+  refine OkImp.bind' (Q1 := fun x => x.rows.length = s.rows.length) ?_ ?_
+  · refine iter_inv _ (fun x => x.rows.length = s.rows.length) (fun _ _ h => h) ?_ _ (by split <;> rfl)
+    intro x hx
+    try dsimp only
+    refine OkImp.ite (fun _ => OkImp.pure hx) (fun _ => ?_)
+    refine OkImp.bind' (requireTok_rows x) ?_
+    rintro ⟨t, x1⟩ h1
+    have h1' : x1.rows.length = s.rows.length := by rw [h1]; exact hx
+    try dsimp only at h1 ⊢
+    refine OkImp.ite (fun _ => ?_) (fun _ => ?_)
+    · refine OkImp.bind' (Q1 := fun y => y.rows.length = s.rows.length) ?_ ?_
+      · refine iter_inv _ (fun y => y.rows.length = s.rows.length) (fun _ _ h => h) ?_ _ h1'
+        intro y hy
+        refine OkImp.bind' (requireTok_rows y) ?_
+        rintro ⟨t2, y1⟩ h2
+        have : y1.rows.length = s.rows.length := by rw [h2]; exact hy
+        exact OkImp.ite (fun _ => OkImp.pure this) (fun _ => OkImp.pure this)
+      · intro y hy
+        exact OkImp.ite (fun _ => OkImp.pure hy) (fun _ => OkImp.perr _)
+    · refine OkImp.ite (fun _ => OkImp.pure h1') (fun _ => ?_)
+      refine OkImp.ite (fun _ => OkImp.pure h1') (fun _ => ?_)
+      refine OkImp.ite (fun _ => OkImp.ite (fun _ => OkImp.pure h1') (fun _ => OkImp.perr _)) (fun _ => ?_)
+      refine OkImp.bind (fun n => OkImp.pure h1')
+  · intro x hx
+    refine OkImp.ite (fun _ => OkImp.ite (fun _ => OkImp.pure ⟨hr', ?_⟩) (fun _ => OkImp.pure ⟨hr', hx⟩)) (fun _ => OkImp.pure ⟨hr', ?_⟩)
+    · simp only [List.length_mapIdx]; exact hx
+    · simp only [List.length_mapIdx]; split <;> exact hx
+
+end DendroModel.C20.Aux
+
+namespace DendroModel.C20
+open DendroModel DendroModel.C20.Aux
+
+/-- **`rowLen` never takes its default in the MATRIX row loop.**  Whenever `_read_character_states` (`readStates`) returns for
+the row at position `r`, that position was inside `rows` when it started (otherwise it reports `internal`, unreachable by
+`rowFor_in_range` + `nexus_never_internal`) and is inside `rows` when it ends — the cell loop and the multistate loop do not
+add or drop rows — so the `rowLen s r` that `matrixRows` evaluates next (`len(char_block[taxon]) < nchar`) reads an existing
+row: its `getD 0` default is dead there. -/
+theorem matrix_row_stays_in_range (symOk : Char → Bool) (r : Nat) (s s' : RS) (h : readStates symOk r s = .ok s') :
+    r < s.rows.length ∧ s'.rows.length = s.rows.length ∧ ∃ x, s'.rows[r]? = some x ∧ rowLen s' r = x.2 := by
+  obtain ⟨h1, h2⟩ := readStates_rows symOk r s s' h
+  have h3 : r < s'.rows.length := by omega
+  refine ⟨h1, h2, s'.rows[r], List.getElem?_eq_getElem h3, ?_⟩
+  unfold rowLen
+  rw [List.getElem?_eq_getElem h3]
+  rfl
+
+/-- the guard is real: a position outside `rows` is reported, not defaulted -/
+example (symOk : Char → Bool) : readStates symOk 3 { rest := [], rows := [(0, 0)] } = .error (.internal "row index out of range") := rfl
 
 /-- **PHYLIP never accepts a ragged matrix.**  Whatever the text and the mode — in particular an interleaved document
 whose last block is incomplete (cut after the first row of the block, a line of the block lost) — a matrix that
